@@ -108,17 +108,17 @@ PROPS = {
         "7 C20"),
     "C01": entry(
         "Point reads return the most recent write, whatever maintenance has happened",
-        [ia("cstream", 2000, 100000), ia("runs", 600, 20000), ia("small", 300, 5000), ib("core", 600, 30000, blob=2, ops=60)],
+        [ia("cstream", 2000, 100000), ia("runs", 600, 20000), ia("small", 300, 5000), ib("core", 600, 30000, blob=2, ops=60), ib("lvl", 300, 15000, blob=2, ops=70)],
         "I-A: CompactionStream, optimize_runs, Run::get_for_key / range lookups, Memtable insert/get vs model; "
-        "I-B: histories over {insert, remove, batch, rotate, flush(wm), Leveled(l0 1-4, target 1-4096 B, wm), major, MoveDown, PullDown, reopen-after-flush} x configs (block size 1..4096, restart interval, hash ratio, partitioned/pinned index+filter, bloom none/bpk/fpr, cache 0..8 MiB, fd table none/1/2/64), standard and key-value-separated; after EVERY op the real tree's full state (history, memtables, every table's contents and metadata) is compared with the Lean model's prediction, every observed Leveled choice is checked against Admissible and every cut against cutsBetweenKeys, and get / contains_key / size_of of every key are compared with an ordered-map oracle; non-trivial = >= 1 version-changing compaction and >= 2 flushes",
+        "I-B: histories over {insert, remove, batch, rotate, flush(wm), Leveled(l0 1-4, target 1-4096 B, wm), major, MoveDown, PullDown, reopen-after-flush} x configs (block size 1..4096, restart interval, hash ratio, partitioned/pinned index+filter, bloom none/bpk/fpr, cache 0..8 MiB, fd table none/1/2/64), standard and key-value-separated; after EVERY op the real tree's full state (history, memtables, every table's contents and metadata) is compared with the Lean model's prediction, every Leveled choice (recorded from the very `choose` call the worker makes, with the hidden set and the file sizes of that moment) is PREDICTED by the model's leveledChooseAt given the level the real scoring picked — same table set, same destination, Move / Merge / DoNothing — and additionally checked against Admissible (`lvl` profile: Leveled-heavy histories with deep levels, 38+ distinct window shapes); every cut is checked against cutsBetweenKeys, and get / contains_key / size_of of every key are compared with an ordered-map oracle; non-trivial = >= 1 version-changing compaction and >= 2 flushes",
         TECH,
-        "c01_point_read_refines_map: for EVERY history of the alphabet whose observed decisions are admissible (okStep: Admissible choice, cuts between distinct user keys, fresh ids) and every snapshot at or above the counter, get returns the last write (value, or absent after a delete); corollaries: a deleted key never reappears, an overwritten value never resurfaces; c01_good_invariant: sortedness, run disjointness, metadata and read order hold in every reachable state.",
-        "leveled size scoring is not modelled: its choice is an observed input constrained by Admissible (checked on every observed choice); for major, pull-down and move-down (under P5) admissibility of the modelled choice function is a theorem (c01_major_okStep, c01_pulldown_okStep, c01_movedown_okStep); bloom filter / hash index / block layout are C11/C12's subject (a table is its entry list here); proved for standard trees (blob trees: validated by correspondence, C08)",
-        "7 C01", modules=["C01", "C01b"]),
+        "c01_point_read_refines_map: for EVERY history of the alphabet whose observed decisions are admissible (okStep: Admissible choice, cuts between distinct user keys, fresh ids) and every snapshot at or above the counter, get returns the last write (value, or absent after a delete); corollaries: a deleted key never reappears, an overwritten value never resurfaces; c01_good_invariant: sortedness, run disjointness, metadata and read order hold in every reachable state. C01c: c01_leveled_admissible / c01_leveled_okStep — for EVERY outcome of the floating-point scoring (level pick, need-new-L1), hidden set and file sizes, the transcribed Leveled::choose + pick_minimal_compaction returns DoNothing or a Move / Merge that is Admissible on every well-formed version obeying P6 (necessity of P6 and the hidden-set blind spot of the Lmax trivial move are proved examples); C01b: the same for major, pull-down, move-down.",
+        "Leveled's floating-point scoring (f64 scores, f32 level ratios) is not modelled: the two decisions that depend on it enter leveledChooseAt as arbitrary parameters, so the admissibility theorem covers every possible scoring; an exact-rational scoring is compared as a counter only (leveled.auto.*); bloom filter / hash index / block layout are C11/C12's subject (a table is its entry list here); proved for standard trees (blob trees: validated by correspondence, C08)",
+        "7 C01", modules=["C01", "C01b", "C01c"]),
     "C06": entry(
         "Background flushes and compactions never change what readers see or lose a write",
         [{"args": ["id"], "cases": {"quick": 400, "thorough": 8000}}, {"args": ["id", "--inflight"], "cases": {"quick": 200, "thorough": 6000}}, {"args": ["id", "--blob", "1"], "cases": {"quick": 100, "thorough": 3000}},
-         {"args": ["id", "--stress"], "cases": {"quick": 8, "thorough": 120}}, {"args": ["id", "--stress", "--blob", "1"], "cases": {"quick": 4, "thorough": 60}}],
+         {"args": ["id", "--deep"], "cases": {"quick": 60, "thorough": 2500}}, {"args": ["id", "--stress"], "cases": {"quick": 8, "thorough": 120}}, {"args": ["id", "--stress", "--blob", "1"], "cases": {"quick": 4, "thorough": 60}}],
         "I-D: thread programs (1 writer 12-42 writes of reader-visible keys and, in phases, of a separate z key range; flusher 3-8 flushes; 1-3 Leveled compactors; 1-2 readers at published snapshots; one thread issuing major_compact / drop_range(z..) preferably while a minor compaction is between its choose and commit steps; one thread that only rotates) run under a cooperative scheduler at feature-gated scheduling points OUTSIDE the engine's lock regions: one thread runs from point to point, so every execution is a seed-reproducible sequence of segments with at most one critical section each; uniform and PCT-style priority schedules; after every segment the committed label (write / rotate / flushCommit / merge / move) is inferred from the state difference and replayed through the Lean model with full state comparison (atomic mode); inflight mode additionally pre-empts the writer between drawing its seqno and inserting (readers follow P2). Oracles: reads at published snapshots = last write below the snapshot; no Err, no panic; hidden set empty at the end; every acknowledged write present; reopen = flushed state. non-trivial = distinct executed label sequences",
         "Lean 4 theorems over all interleavings of thread programs at critical-section granularity + controlled-schedule replay of the real engine with step validation against the model",
         "c06_any_schedule_refines_map, c06_reads_at_published_snapshots_stable, c06_acknowledged_writes_present, c06_schedule_independent, c06_flush_commit_discard_sound, c06_final_reopen: for every interleaving (shuffle preserving program order) of the threads' labels that is an admissible run, reads equal the ordered-map model, published snapshots are stable, acknowledged writes survive, and the result does not depend on the schedule.",
@@ -126,8 +126,8 @@ PROPS = {
         "7 C06"),
     "C10": entry(
         "Corrupted bytes on disk are reported, never served as data",
-        [{"args": ["flip"], "cases": {"quick": 4, "thorough": 40}, "tier_args": {"thorough": ["--thorough"]}}, ia("frames", 600, 20000)],
-        "fault enumeration: for small generated trees (standard and key-value-separated, block size 16/64/4096) EVERY byte of every persisted file (tables, blob files, v<N>, current) is flipped (quick: bit 0; thorough: 4 patterns) and every file is truncated at (quick: every 7th; thorough: every) length, then the tree is opened afresh with an empty cache and forward scan, reverse scan, point reads of the whole key universe and a scan at an older snapshot are compared with the unmodified answers: must be identical or an error (panics counted separately); I-A frames: 17 mutation kinds on real block frames / 14 on blob frames decoded by the real readers vs the model with real xxh3 values; non-trivial = distinct (file, offset, pattern) positions",
+        [{"args": ["flip"], "cases": {"quick": 4, "thorough": 12}, "tier_args": {"thorough": ["--thorough"]}}, ia("frames", 600, 20000)],
+        "fault enumeration: for small generated trees (standard and key-value-separated, block size 16/64/4096) EVERY byte of every persisted file (tables, blob files, v<N>, current) is flipped (quick: bit 0; thorough: 4 patterns) and every file is truncated at (quick: every 7th; thorough: every) length, then the tree is opened afresh with an empty cache (half of the trees with partitioned, unpinned index and filter blocks; values of odd and even length) and EVERY read path is judged on its own — forward scan, reverse scan, point reads, first / last key, len, scans at an older snapshot: each must return the original answer or an error (a path that reports the corruption does not excuse another one that silently returns different data); the enumeration runs in a worker process under a supervisor, so a probe that kills the process (fatal signal, failed allocation) or hangs (watchdog) is recorded with its input and the next worker resumes after it; [previous wording:] forward scan, reverse scan, point reads of the whole key universe and a scan at an older snapshot are compared with the unmodified answers: must be identical or an error (panics counted separately); I-A frames: 17 mutation kinds on real block frames / 14 on blob frames decoded by the real readers vs the model with real xxh3 values; non-trivial = distinct (file, offset, pattern) positions",
         "Lean 4 theorems on the frame formats with abstract hash functions (collision witness in the statement) + exhaustive byte-flip / truncation enumeration on real files opened by the real code",
         "c10_block_single_byte / c10_blob_single_byte / c10_version_file_covered / c10_truncation_detected / c10_type_confusion_detected: any single-byte change of a block or blob frame or of the version file is rejected, yields the original, or exhibits an explicit hash collision; truncations and block-type confusion are rejected.",
         "partial: xxh3 is a parameter (no collision-freedom axiom; the disjunct is in the statements); sfa TOC/trailer and the table's region map are exercised by the enumeration, not modelled; blob frame fields seqno / lengths are not covered by a checksum (harmless: value bytes are)",
